@@ -44,3 +44,11 @@ func VerifCacheSegMap(c *Cache) *SegmentUInt64Map[any] { return c.data.data }
 
 // VerifCacheMaxSize returns c.maxSize.
 func VerifCacheMaxSize(c *Cache) int64 { return c.maxSize }
+
+// VerifSegLock / VerifSegUnlock take and release the WRITE lock of key's
+// segment (exposes the unexported per-segment mutex; used to stage "several
+// goroutines arrive while a writer is busy in this segment").
+func VerifSegLock[V any](m *SegmentUInt64Map[V], key uint64) { m.getSegment(key).rwlock.Lock() }
+
+// VerifSegUnlock releases what VerifSegLock took.
+func VerifSegUnlock[V any](m *SegmentUInt64Map[V], key uint64) { m.getSegment(key).rwlock.Unlock() }
